@@ -22,7 +22,7 @@ import numpy as np
 
 from harness import coqterm as ct
 from harness.acc_common import (CellPrinter, cbool, clist, copt, cz, czlist, mend, mid, month_aligned,
-                                parse_nat_list, tri_from_json, tri_to_json)
+                                parse_nat_list, same_meta, tri_from_json, tri_to_json)
 from harness.common import COQ, REPO, parse_coq_eval
 from harness.gen import Gen
 
@@ -128,9 +128,9 @@ def retimed(t, kind):
     metas = []
     out = []
     for c in t.cells:
-        if not any(c.metadata == m for m in metas):
+        if not any(same_meta(c.metadata, m) for m in metas):
             metas.append(c.metadata)
-        i = next(k for k, m in enumerate(metas) if m == c.metadata)
+        i = next(k for k, m in enumerate(metas) if same_meta(m, c.metadata))
         h, mi = [(0, 0), (17, 30), (9, 15)][i % 3]
         kw = {}
         if type(c).__name__ == "IncrementalCell":
@@ -228,7 +228,7 @@ def rows(cells):
     metas, out = [], {}
     for c in cells:
         for i, m in enumerate(metas):
-            if m == c.metadata:
+            if same_meta(m, c.metadata):
                 break
         else:
             metas.append(c.metadata)
@@ -241,7 +241,7 @@ def rows(cells):
 
 def find_row(metas, rws, c):
     for i, m in enumerate(metas):
-        if m == c.metadata:
+        if same_meta(m, c.metadata):
             return rws.get((i, c.period_start, c.period_end)), i
     return None, None
 
@@ -285,7 +285,7 @@ def oracle(t, op, res):
             seen.add(key)
             if not c.evaluation_date > row[-1].evaluation_date:
                 bad.append(f"new cell {coord(c)} not strictly after the period's latest observation {row[-1].evaluation_date}")
-            if c.metadata != row[-1].metadata:  # the slice's metadata (Python ==; spelling is tied by the model)
+            if not same_meta(c.metadata, row[-1].metadata):  # the slice's metadata (==; spelling is tied by the model)
                 bad.append("new cell does not carry its slice's metadata")
             if c.values != {}:
                 bad.append(f"new cell has values {c.values}")
@@ -295,11 +295,11 @@ def oracle(t, op, res):
         # completeness / exactness of lags (right triangle), grid (diagonal)
         for (i, a, b), row in rws.items():
             edge = row[-1]
-            new = [c for c in out if c.metadata == metas[i] and (c.period_start, c.period_end) == (a, b)]
+            new = [c for c in out if same_meta(c.metadata, metas[i]) and (c.period_start, c.period_end) == (a, b)]
             new.sort(key=lambda c: c.evaluation_date.toordinal())
             if k == "rt":
                 if op["lags"] is None:
-                    wanted = {lag_of(c, unit) for c in cells if c.metadata == metas[i]}
+                    wanted = {lag_of(c, unit) for c in cells if same_meta(c.metadata, metas[i])}
                 else:
                     wanted = set(op["lags"])
                 want = sorted(x for x in wanted if x > lag_of(edge, unit))
@@ -307,7 +307,7 @@ def oracle(t, op, res):
                 if got != want:
                     bad.append(f"period {a}..{b} slice {i}: new lags {got}, wanted exactly {want} (edge lag {lag_of(edge, unit)})")
             else:
-                mx = max(c.evaluation_date for c in cells if c.metadata == metas[i])
+                mx = max(c.evaluation_date for c in cells if same_meta(c.metadata, metas[i]))
                 want = sorted(D.fromisoformat(d) for d in op["dates"] if D.fromisoformat(d) > mx)
                 got = [c.evaluation_date for c in new]
                 if got != want:
@@ -347,7 +347,7 @@ def oracle(t, op, res):
             if row is None:
                 bad.append(f"filled cell in a (slice, period) absent from the input: {coord(c)}")
                 continue
-            if c.metadata != row[0].metadata or type(c) is not type(row[0]):
+            if not same_meta(c.metadata, row[0].metadata) or type(c) is not type(row[0]):
                 bad.append("filled cell does not carry its slice's metadata / class")
             first, last = lag_of(row[0], "month"), lag_of(row[-1], "month")
             lg = lag_of(c, "month")
@@ -359,7 +359,7 @@ def oracle(t, op, res):
             # carried forward from the RESULT row's cell one resolution step earlier (the grid predecessor;
             # with a resolution coarser than the observed spacing other observed cells may lie in between),
             # or all None
-            orow = [x for x in out if x.metadata == c.metadata and (x.period_start, x.period_end) == (c.period_start, c.period_end)
+            orow = [x for x in out if same_meta(x.metadata, c.metadata) and (x.period_start, x.period_end) == (c.period_start, c.period_end)
                     and lag_of(x, "month") == lg - res_m]
             src = orow[-1] if orow else None
             if src is None:
@@ -516,6 +516,34 @@ def respell(t, kind, rng):
         return Triangle(out)
 
 
+def collide(t, rng):
+    """Family M: make the slices siblings that differ ONLY by a value whose CPython hash collides
+    (-1 / -2, -1.0 / -2.0, 0 / 2**61 - 1) in a detail, a loss_detail or the limit."""
+    import dataclasses
+
+    from bermuda import Triangle
+
+    cells = list(t.cells)
+    metas = []
+    for c in cells:
+        if not any(same_meta(c.metadata, m) for m in metas):
+            metas.append(c.metadata)
+    vals = rng.choice([[-1, -2, 0], [-2, -1, 2**61 - 1], [-1.0, -2.0, 0.0], [0, 2**61 - 1, -1], [2**61 - 1, 0, -2]])
+    where = rng.choice(["details", "loss_details", "per_occurrence_limit"])
+    base = metas[0]
+    sib = []
+    for i in range(len(metas)):
+        if where == "per_occurrence_limit":
+            sib.append(dataclasses.replace(base, per_occurrence_limit=vals[i % 3]))
+        else:
+            sib.append(dataclasses.replace(base, **{where: {**getattr(base, where), "layer": vals[i % 3]}}))
+    out = [c.replace(metadata=sib[next(k for k, m in enumerate(metas) if same_meta(m, c.metadata))]) for c in cells]
+    rng.shuffle(out)
+    with warnings.catch_warnings():
+        warnings.simplefilter("ignore")
+        return Triangle(out)
+
+
 def gen_case(rng, g, i):
     shape = SHAPES[i % len(SHAPES)]
     basis = "inc" if (i // len(SHAPES)) % 3 == 2 else "cum"
@@ -553,7 +581,11 @@ def gen_case(rng, g, i):
             t = Triangle(kept)
         cells = list(t.cells)
         shape = shape + "+slice_ragged"
-    if rng.random() < 0.2:
+    if info["n_slices"] >= 2 and rng.random() < 0.12:
+        t = collide(t, rng)
+        cells = list(t.cells)
+        shape = shape + "+hash_colliding"
+    elif rng.random() < 0.2:
         t = respell(t, kind, rng)
         cells = list(t.cells)
         shape = shape + "+respelled"
@@ -679,6 +711,26 @@ def directed():
     return out
 
 
+def inc_cells(t):
+    """the incremental cells of a cumulative triangle with empty / constant values, built by the harness
+    itself (no library conversion inside a generator)"""
+    from bermuda import IncrementalCell
+    from harness.acc_common import meta_key
+
+    groups = {}
+    for c in t.cells:
+        groups.setdefault((meta_key(c.metadata), c.period_start, c.period_end), []).append(c)
+    out = []
+    for row in groups.values():
+        row.sort(key=lambda c: c.evaluation_date.toordinal())
+        prev = row[0].period_start - ONE
+        for c in row:
+            out.append(IncrementalCell(period_start=c.period_start, period_end=c.period_end, prev_evaluation_date=prev,
+                                       evaluation_date=c.evaluation_date, values=dict(c.values), metadata=c.metadata))
+            prev = c.evaluation_date
+    return out
+
+
 def hardening():
     """Directed stream for the input families of notes/HARDENING.md (runs on every quick run)."""
     from bermuda import Cell, CumulativeCell, IncrementalCell, Metadata, Triangle
@@ -725,6 +777,22 @@ def hardening():
                    ("B:none-vs-empty-string", [Metadata(country=None), Metadata(country="")]),
                    ("B:only-loss_details-differ", [Metadata(loss_details={"c": "a"}), Metadata(loss_details={"c": "b"}), Metadata()])]:
         add(nm, upper_left(2021, 1, 3, 3, ms, holes={(0, 1)}))
+    # M: sibling slices differing ONLY by a hash-colliding value (detail / loss_detail / limit)
+    for nm, ms in [("M:detail--1/-2", [Metadata(details={"layer": -1}), Metadata(details={"layer": -2})]),
+                   ("M:loss_detail--1.0/-2.0", [Metadata(loss_details={"layer": -2.0}), Metadata(loss_details={"layer": -1.0})]),
+                   ("M:limit-0/2**61-1", [Metadata(per_occurrence_limit=2**61 - 1), Metadata(per_occurrence_limit=0)])]:
+        ul = upper_left(2021, 1, 3, 3, ms, holes={(0, 1)})
+        # the second slice is observed one diagonal less than the first: its rows end earlier
+        ragged = Triangle([c for c in ul.cells if not (c.metadata is ms[1] and c.evaluation_date == max(x.evaluation_date for x in ul.cells))])
+        add(nm, ragged)
+        add(nm + "-inc", Triangle(inc_cells(upper_left(2021, 1, 3, 3, ms))), OPS[:3])
+    # P: whole periods missing; evaluation steps whose gcd (3) is smaller than the smallest step (6)
+    add("P:annual-2018-2020-no-2019", Triangle([mk(D(y, 1, 1), D(y, 12, 31), D(y + k, 12, 31)) for y in (2018, 2020) for k in (0, 1, 3)]),
+        OPS + [{"kind": "ff", "res": None, "none": False}, {"kind": "bf", "statics": [], "res": None, "min_lag": -11}])
+    add("P:eval-steps-0-6-15", Triangle([mk(D(2020, 1, 1), D(2020, 3, 31), mend(602 + k)) for k in (0, 6, 15)]
+                                        + [mk(D(2020, 4, 1), D(2020, 6, 30), mend(605 + k)) for k in (3, 12)]),
+        OPS + [{"kind": "ff", "res": None, "none": False}, {"kind": "ff", "res": 3, "none": True},
+               {"kind": "bf", "statics": [], "res": None, "min_lag": -2}, {"kind": "rt", "unit": "month", "lags": [0, 6, 15, 21]}])
     # C: calendar corners (monthly periods around February; add_months results stay after 1970: F10 is C12's)
     for y in (2000, 2096, 2100, 2023, 2240):
         add(f"C:feb-{y}", upper_left(y - 1, 12, 4, 1, holes={(0, 2)}))
@@ -766,9 +834,9 @@ def hardening():
     t = upper_left(2022, 1, 3, 3, holes={(0, 1)})
     tdops = [{"kind": "rt", "unit": "timedelta", "lags": ls} for ls in (None, [92], [0, 91, 92, 400], [])]
     add("K:timedelta-unit", t, tdops)
-    add("K:timedelta-unit-inc", Triangle(list(upper_left(2022, 1, 3, 3).to_incremental().cells)), tdops)
+    add("K:timedelta-unit-inc", Triangle(inc_cells(upper_left(2022, 1, 3, 3))), tdops)
     # L: refusals both ways
-    inc = list(upper_left(2022, 1, 3, 3).to_incremental().cells)
+    inc = inc_cells(upper_left(2022, 1, 3, 3))
     add("L:valid-incremental", Triangle(inc), OPS[:3])
     broken = [c.replace(prev_evaluation_date=c.prev_evaluation_date - ONE) if i == 1 else c for i, c in enumerate(inc)]
     add("L:broken-chain", Triangle(broken), OPS[:3])
